@@ -77,3 +77,75 @@ def pmap(fn, jobs_list, procs=None):
     ctx = mp.get_context("fork")
     with ctx.Pool(min(procs, len(jobs_list))) as pool:
         return pool.map(fn, jobs_list, chunksize=1)
+
+
+# ----------------------------------------------------------------------------- drive + judge inside the worker processes
+
+def _judged_job(packed):
+    """Runs in a pool process: produce the events of a batch of jobs, let TLC judge them there (flushing whenever `chunk` events have
+    accumulated, so memory stays bounded), return only the verdicts."""
+    fn, batch, module, env, replay_fn, key_fn, nontrivial_fn, chunk = packed
+    out = {"n": 0, "bad": [], "ante": {}, "distinct": 0, "samples": [], "hashes": set()}
+
+    def flush(events):
+        if not events:
+            return
+        res = tla.judge(module, events, chunk=chunk, jobs=1, env=env)
+        for gi, clause, detail in res["bad"]:
+            out["bad"].append((clause, replay_fn(events[gi], detail)))
+        for k, v in res["ante"].items():
+            out["ante"][k] = out["ante"].get(k, 0) + v
+        keys = {common.digest(key_fn(e)) for e in events if nontrivial_fn(e)}
+        out["n"] += len(events)
+        if out["hashes"] is not None:
+            out["hashes"] |= keys
+            if len(out["hashes"]) > 200000:
+                out["distinct"] += len(out["hashes"])
+                out["hashes"] = None
+        else:
+            out["distinct"] += len(keys)
+        if len(out["samples"]) < 2:
+            out["samples"] += [events[0], events[len(events) // 2]]
+
+    pending = []
+    for job in batch:
+        events = fn(job)
+        if isinstance(events, tuple):          # drivers returning (ops, reads) style tuples
+            events = [e for part in events for e in part]
+        pending += events
+        if len(pending) >= chunk:
+            flush(pending)
+            pending = []
+    flush(pending)
+    if out["hashes"] is not None:
+        out["distinct"] += len(out["hashes"])
+        if len(out["hashes"]) > 50000:
+            out["hashes"] = None
+    return out
+
+
+def run_judged(fn, jobs_list, module, *, replay_fn, key_fn, nontrivial_fn=lambda e: True, env=None, chunk=20000, procs=None, disjoint=True, batch=None):
+    """pmap over jobs with the judge running inside each worker; memory stays bounded by one job's events.
+    Returns dict(n, bad=[(clause, (replay, detail))], ante, distinct, samples).  `disjoint`: the jobs partition the case space
+    (distinct counts add up); otherwise digests are merged (only possible while they are few)."""
+    jobs_list = list(jobs_list)
+    ntasks = max(1, min(len(jobs_list), batch or (procs or common.jobs()) * 3))    # `batch` = number of pool tasks; a few per process: few JVM starts, still balanced
+    packed = [(fn, jobs_list[i::ntasks], module, env, replay_fn, key_fn, nontrivial_fn, chunk) for i in range(ntasks)]
+    out = {"n": 0, "bad": [], "ante": {}, "distinct": 0, "samples": []}
+    merged = set()
+    for r in pmap(_judged_job, packed, procs=procs):
+        out["n"] += r["n"]
+        out["bad"] += r["bad"]
+        for k, v in r["ante"].items():
+            out["ante"][k] = out["ante"].get(k, 0) + v
+        if disjoint or r["hashes"] is None:
+            out["distinct"] += r["distinct"]
+        else:
+            merged |= r["hashes"]
+            if len(merged) > 3000000:          # give up merging, count what we have and continue additively
+                out["distinct"] += len(merged)
+                merged, disjoint = set(), True
+        if len(out["samples"]) < 4:
+            out["samples"] += r["samples"][:1]
+    out["distinct"] += len(merged)
+    return out
